@@ -70,6 +70,11 @@ class IkeSaController:
         already_rekeyed = ike_sa.state in rekeyed_states
         reply = ike_sa.process_message(data)
 
+        # a responder IKE_SA that could not even process its IKE_SA_INIT request is dropped
+        if ike_sa.state == IkeSa.State.INITIAL and not ike_sa.is_initiator:
+            self.ike_sas.remove(ike_sa)
+            return reply
+
         # if rekeyed by this very message, add the new IkeSa (retransmissions must not add it again)
         if ike_sa.state in rekeyed_states and not already_rekeyed:
             self.ike_sas.append(ike_sa.new_ike_sa)
